@@ -77,6 +77,7 @@ type caseA struct {
 	Grants map[string][]string `json:"grants,omitempty"` // permission -> grantee ids ("*" = all users group)
 	Spec   cat.Spec            `json:"spec"`
 	Caller string              `json:"caller"`
+	Prev   string              `json:"prev,omitempty"` // the account that owned bucket A before the admin gave it to alice
 	Keys   []string            `json:"keys,omitempty"` // DeleteObjects: the keys of the batch
 }
 
@@ -246,6 +247,15 @@ func execA(c caseA) (v verdict, err error) {
 			return v, fmt.Errorf("SETUP: put %s: %v", k, r)
 		}
 	}
+	if c.Prev != "" {
+		// the bucket has a past: it belonged to another account until the admin handed it to alice
+		for _, o := range []string{c.Prev, "alice"} {
+			if r := rootc.MustCall("PATCH", "/change-bucket-owner", s3c.Q("bucket", bktA, "owner", o), nil, nil); !r.OK() {
+				return v, fmt.Errorf("SETUP: change-bucket-owner %s: %v", o, r)
+			}
+		}
+		ev.Class("bucket-had-another-owner")
+	}
 	if c.Mode == "policy" {
 		doc := renderDoc(c.Stmts)
 		if r := rootc.MustCall("PUT", "/"+bktA, s3c.Q("policy", ""), nil, []byte(doc)); !r.OK() {
@@ -368,10 +378,14 @@ func execA(c caseA) (v verdict, err error) {
 }
 
 func (c caseA) describe() string {
-	if c.Mode == "policy" {
-		return "policy " + renderDoc(c.Stmts)
+	past := ""
+	if c.Prev != "" {
+		past = fmt.Sprintf(" (bucket owned by %s before)", c.Prev)
 	}
-	return fmt.Sprintf("ACL grants %v", c.Grants)
+	if c.Mode == "policy" {
+		return "policy " + renderDoc(c.Stmts) + past
+	}
+	return fmt.Sprintf("ACL grants %v%s", c.Grants, past)
 }
 
 // canonical: the statements with their Effect in the canonical spelling (what an accepted "deny" can only mean)
@@ -411,7 +425,7 @@ func stmtGen() *rapid.Generator[model.Statement] {
 		}
 		all := append(append([]string(nil), model.ObjectActions...), model.BucketActions...)
 		actGen := rapid.OneOf(rapid.SampledFrom(all), rapid.SampledFrom(all), rapid.Just("s3:*"),
-			rapid.SampledFrom([]string{"s3:Get*", "s3:Put*", "s3:Delete*", "s3:List*", "s3:GetObject*", "s3:PutObject*", "s3:PutBucket*"}))
+			rapid.SampledFrom([]string{"s3:Get*", "s3:Put*", "s3:Delete*", "s3:List*", "s3:GetObject*", "s3:PutObject*", "s3:PutBucket*", "s3:DeleteObject*", "s3:ListBucket*", "s3:GetObject*", "s3:PutObject*"}))
 		s.Actions = rapid.SliceOfNDistinct(actGen, 1, 4, rapid.ID[string]).Draw(t, "actions")
 		objRes := rapid.OneOf(rapid.Just(bktA+"/*"), rapid.SampledFrom([]string{bktA + "/a", bktA + "/a*", bktA + "/dir/*", bktA + "/?", bktA + "/obj1", bktA + "/*b", bktA + "/dir/a", bktA + "/new*", bktA + "/mp1", bktA + "/??", bktA + "/ob?1*", bktA + "/d?r/*", bktA + "/?bj*", bktA + "/*1", bktA + "/n?sted/*", bktA + "/dirobj/*", bktA + "/dir/newdir/*"}))
 		// always both kinds, so that the document is valid whatever the action kinds are
@@ -496,6 +510,9 @@ func genCase(t *rapid.T) caseA {
 		}
 	}
 	c.Caller = rapid.SampledFrom([]string{"bob", "bob", "carol", "carol", "alice", "dave"}).Draw(t, "caller")
+	if (c.Caller == "bob" || c.Caller == "carol") && rapid.IntRange(0, 5).Draw(t, "prev_owner") == 0 {
+		c.Prev = rapid.SampledFrom([]string{c.Caller, c.Caller, "bob", "carol"}).Draw(t, "prev")
+	}
 	if c.Spec.Op == "DeleteObjects" {
 		c.Keys = rapid.SliceOfNDistinct(rapid.SampledFrom([]string{"a", "b", "ab", "dir/a", "dir/b", "obj1"}), 1, 4, rapid.ID[string]).Draw(t, "keys")
 	}
@@ -516,7 +533,9 @@ func genCase(t *rapid.T) caseA {
 		}
 		who := rapid.SampledFrom([][]string{{c.Caller}, {"*"}, {"bob", "carol"}}).Draw(t, "aimed_principal")
 		allow := model.Statement{Effect: "Allow", Principals: who, Actions: []string{"s3:*"}, Resources: []string{bktA, bktA + "/*"}}
-		deny := model.Statement{Effect: "Deny", Principals: []string{c.Caller}, Actions: []string{rapid.SampledFrom([]string{"s3:*", "s3:Get*", "s3:Put*", "s3:Delete*", "s3:GetObject", "s3:PutObject", "s3:DeleteObject", "s3:PutObjectTagging", "s3:GetObjectTagging"}).Draw(t, "aimed_action")},
+		deny := model.Statement{Effect: "Deny", Principals: []string{c.Caller}, Actions: []string{rapid.SampledFrom([]string{"s3:*", "s3:Get*", "s3:Put*", "s3:Delete*", "s3:GetObject", "s3:PutObject", "s3:DeleteObject", "s3:PutObjectTagging", "s3:GetObjectTagging",
+			// a trailing star also stands for nothing: the action itself
+			"s3:GetObject*", "s3:PutObject*", "s3:DeleteObject*", "s3:ListBucket*", "s3:GetObjectTagging*"}).Draw(t, "aimed_action")},
 			Resources: []string{bktA + "/" + rapid.SampledFrom(narrow).Draw(t, "aimed_resource")}}
 		if rapid.Bool().Draw(t, "aimed_deny_first") {
 			c.Stmts = []model.Statement{deny, allow}
